@@ -401,6 +401,27 @@ static void special_values()
 			std::vector<std::vector<double>> ni{lists[i], {1.5}}, nj{lists[j], {1.5}};
 			if(Lists_Equal(ni, nj) != want) fail("lists", key + ",nested", "lists_equal_not_elementwise", "nested Lists_Equal disagrees with the element-wise comparison");
 		}
+	// neighbouring doubles are different elements (List_Contains, Find_Indices, Lists_Equal are exact comparisons)
+	{
+		double a = 0.3, b = 0.1 + 0.2, c = std::nextafter(0.3, 0.0), d = 1.0, e = std::nextafter(1.0, 2.0), f = std::nextafter(std::nextafter(1.0, 2.0), 2.0), g = 1e300, h = std::nextafter(1e300, 0.0);
+		std::vector<double> nb{a, b, c, d, e, f, g, h, a, e};
+		for(double x : nb)
+		{
+			std::vector<int> idx;
+			for(int i = 0; i < (int)nb.size(); i++) if(nb[i] == x) idx.push_back(i);
+			g_cases++;
+			if(Find_Indices(nb, x) != idx || !List_Contains(nb, x)) fail("lists", "neighbouring_doubles,x=" + mc::hexd(x), "find_indices_not_elementwise", "Find_Indices / List_Contains do not compare exactly");
+		}
+		for(double x : {std::nextafter(0.3, 1.0) + 1e-16, std::nextafter(1e300, INFINITY), std::nextafter(1.0, 0.0)})
+		{
+			g_cases++;
+			if(!Find_Indices(nb, x).empty() || List_Contains(nb, x)) fail("lists", "neighbouring_doubles,absent x=" + mc::hexd(x), "find_indices_not_elementwise", "an absent neighbour of a member is reported as found");
+		}
+		std::vector<double> nb2 = nb;
+		nb2[4] = f;
+		g_cases++;
+		if(Lists_Equal(nb, nb2) || !Lists_Equal(nb, nb)) fail("lists", "neighbouring_doubles", "lists_equal_not_elementwise", "Lists_Equal does not compare exactly");
+	}
 	std::vector<double> v{1.0, -0.0, nan, 0.0, inf};
 	g_cases++;
 	if(!List_Contains(v, 0.0) || !List_Contains(v, -0.0) || List_Contains(v, nan) || !List_Contains(v, inf)) fail("lists", "special_values", "list_contains_not_elementwise", "List_Contains disagrees with operator== on 0.0/-0.0/NaN/inf");
